@@ -897,12 +897,20 @@ func (ip *Interp) callPath(fn *ssa.Function, args []Val, bind []Val, st *State) 
 		}
 	}
 	cur := &State{Heap: st.Heap}
+	forks := 0
+	return ip.runPath(fn, act, st, nil, fn.Blocks[0], cur, &forks)
+}
+
+// runPath follows one path of fn from block b (entered from prev) to a return. A branch
+// the abstract state does not decide splits the path: both continuations are followed
+// to their ends (each with its own copy of the SSA environment) and their results and
+// heaps are merged under that branch's condition, which is exact because each side is
+// a complete execution. The number of splits per call is bounded.
+func (ip *Interp) runPath(fn *ssa.Function, act *activation, st *State, prev, b *ssa.BasicBlock, cur *State, forks *int) (Val, *State) {
 	limit := ip.MaxPathSteps
 	if limit == 0 {
 		limit = 2_000_000
 	}
-	var prev *ssa.BasicBlock
-	b := fn.Blocks[0]
 	for {
 		ip.LiveBlock[b] = true
 		// phis take the value of the edge we came along (evaluated simultaneously)
@@ -923,6 +931,9 @@ func (ip *Interp) callPath(fn *ssa.Function, args []Val, bind []Val, st *State) 
 		}
 		for i, phi := range phis {
 			act.env[phi] = phiVals[i]
+			if cur.refine != nil {
+				delete(cur.refine, phi) // a refinement made in an earlier iteration is about the old value
+			}
 		}
 		var next *ssa.BasicBlock
 		for _, instr := range b.Instrs {
@@ -930,10 +941,16 @@ func (ip *Interp) callPath(fn *ssa.Function, args []Val, bind []Val, st *State) 
 				continue
 			}
 			ip.steps++
-			ip.curSt = nil
+			ip.curSt = cur
 			if ip.steps > limit {
 				ip.Imprecise("path step limit exceeded in " + fn.String())
 				return ip.topOf(fn.Signature.Results(), "loop"), st
+			}
+			// a value computed again in a later iteration is a new value: what a branch of
+			// an earlier iteration established about the old one no longer applies
+			if v, ok := instr.(ssa.Value); ok && cur.refine != nil {
+				delete(cur.refine, v)
+				delete(act.loads, v)
 			}
 			if p := instr.Pos(); p.IsValid() {
 				ip.curPos = p
@@ -946,6 +963,37 @@ func (ip *Interp) callPath(fn *ssa.Function, args []Val, bind []Val, st *State) 
 					next = b.Succs[0]
 				case cb != nil && cb.K == TriF:
 					next = b.Succs[1]
+				case cb != nil && (cb.Cmp != nil || cb.Key != "") && *forks < 1024:
+					*forks++
+					if ip.Hooks.Branch != nil {
+						ip.Hooks.Branch(ip, cb, t)
+					}
+					key, neg := GateOf(cb)
+					ip.In.NoteCond(key, cb)
+					envT, loadsT := cloneEnv(act.env), cloneLoads(act.loads)
+					envF, loadsF := cloneEnv(act.env), cloneLoads(act.loads)
+					sT := cur.fork()
+					ip.refineEdge(act, sT, t.Cond, cb, true)
+					act.env, act.loads = envT, loadsT
+					rT, oT := ip.runPath(fn, act, st, b, b.Succs[0], sT, forks)
+					sF := cur.fork()
+					act.env, act.loads = envF, loadsF
+					ip.refineEdge(act, sF, t.Cond, cb, false)
+					rF, oF := ip.runPath(fn, act, st, b, b.Succs[1], sF, forks)
+					switch {
+					case oT == nil:
+						return rF, oF
+					case oF == nil:
+						return rT, oT
+					}
+					ip.gate, ip.gateExact, ip.gateSwap = key, true, neg
+					var res Val
+					if rT != nil || rF != nil {
+						res = ip.JoinVal(rT, rF)
+					}
+					h := ip.joinHeaps(oT.Heap, oF.Heap)
+					ip.gate, ip.gateExact, ip.gateSwap = "", false, false
+					return res, &State{Heap: h, refine: st.refine}
 				default:
 					ip.Imprecise("undecided branch inside a loop of " + fn.String())
 					return ip.topOf(fn.Signature.Results(), "loop"), st
@@ -964,6 +1012,9 @@ func (ip *Interp) callPath(fn *ssa.Function, args []Val, bind []Val, st *State) 
 						tp.E = append(tp.E, ip.get(act, cur, r))
 					}
 					rv = tp
+				}
+				if ip.TraceReturns {
+					ip.event(Event{Kind: "return", Args: []Val{rv}, Instr: t, GuardL: ip.GuardList(cur), Guards: ip.Guards(cur)})
 				}
 				return rv, &State{Heap: cur.Heap, refine: st.refine}
 			case *ssa.Panic:
@@ -984,6 +1035,22 @@ func (ip *Interp) callPath(fn *ssa.Function, args []Val, bind []Val, st *State) 
 		}
 		prev, b = b, next
 	}
+}
+
+func cloneEnv(m map[ssa.Value]Val) map[ssa.Value]Val {
+	c := make(map[ssa.Value]Val, len(m))
+	for k, v := range m {
+		c[k] = v
+	}
+	return c
+}
+
+func cloneLoads(m map[ssa.Value]loadOrigin) map[ssa.Value]loadOrigin {
+	c := make(map[ssa.Value]loadOrigin, len(m))
+	for k, v := range m {
+		c[k] = v
+	}
+	return c
 }
 
 func predIndex(b, pred *ssa.BasicBlock) int {
@@ -1617,7 +1684,10 @@ func (ip *Interp) binop(act *activation, st *State, t *ssa.BinOp) Val {
 	switch t.Op {
 	case token.ADD:
 		if ip.TraceArith {
-			if s, c := bits.Add64(xi.Hi, yi.Hi, 0); c != 0 || s > mask(w) {
+			// (a signed operand that may be negative is outside this unsigned test: -1 + 1,
+			// the hidden index of a range loop, is not an overflow)
+			neg := signed && (xi.Hi > mask(w)>>1 || yi.Hi > mask(w)>>1)
+			if s, c := bits.Add64(xi.Hi, yi.Hi, 0); !neg && (c != 0 || s > mask(w)) {
 				ip.event(Event{Kind: "overflow", Callee: "add", Args: []Val{xi, yi}})
 			}
 		}
